@@ -134,6 +134,7 @@ static void ct_pc(void *pc) {
 static Plan with_secrets(const Plan &p, int variant, uint64_t seed, uint64_t run) {
     if (variant == 0) return p;
     Plan q = p; Rng r(seed, run, variant == 3 ? "secret3" : "secret4");
+    if (variant == 5 || variant == 6) { uint8_t b = variant == 5 ? 0x01 : 0x80; for (auto &o : q.ops) { std::fill(o.a.begin(), o.a.end(), b); std::fill(o.b.begin(), o.b.end(), b); } return q; }
     for (auto &o : q.ops) {
         if (variant == 1) { std::fill(o.a.begin(), o.a.end(), 0); std::fill(o.b.begin(), o.b.end(), 0); }
         else if (variant == 2) { std::fill(o.a.begin(), o.a.end(), 0xFF); std::fill(o.b.begin(), o.b.end(), 0xFF); }
@@ -198,8 +199,8 @@ static Outcome evaluate(const PropDef &pd, const Plan &plan, uint64_t seed, uint
     case M_CT: {
         g_tsan.mem = ct_mem; g_tsan.pc = ct_pc;
         c.cpu_override = (int)(mix64(seed ^ run * 77) % 3);
-        uint64_t h0 = 0, ev0 = 0; static const char *vn[] = {"secrets as generated", "all secret bytes 00", "all secret bytes FF", "other random secrets", "third random secrets"};
-        for (int v = 0; v < 5; ++v) {
+        uint64_t h0 = 0, ev0 = 0; static const char *vn[] = {"secrets as generated", "all secret bytes 00", "all secret bytes FF", "other random secrets", "third random secrets", "all secret bytes 01", "all secret bytes 80"};
+        for (int v = 0; v < 7; ++v) {
             Plan q = with_secrets(plan, v, seed, run);
             g_ct_hash = 0x51; g_ct_events = 0; g_ct_record = false;
             RunResult r = execute(q, c); absorb(r, vn[v]);
